@@ -29,8 +29,12 @@ THEOREMS = [
     ('c02_model_check_spec_check',
      'forall c : C02.Corr.case, C02.Corr.model_check c = true -> C02.Corr.spec_check c = true'),
 ]
-RULE = ("same 10 item types and history shapes as C01 with set:modify:ask:bound about 1:3:1:5, so that most searches run over "
-        "lazy tags still pending in the tree; predicates: thresholds aimed at a range aggregate that really occurs (le on min, ge "
+RULE = ("same 11 item types and history shapes as C01 with set:modify:ask:bound about 1:3:1:5, so that most searches run over "
+        "lazy tags still pending in the tree; plus the two targeted families of C01, search-heavy: Flip (lazy, modifier type "
+        "()) histories where a flip over whole inner nodes is immediately followed by lower_bound / lower_bound_rev through "
+        "those nodes with thresholds ones >= k aimed at a position inside them (also len >= k, always true / false, and a "
+        "few non-monotone ones <= k), and trees constructed from items carrying their own lazy tag; predicates: thresholds "
+        "aimed at a range aggregate that really occurs (le on min, ge "
         "on max / sum / len, componentwise through the combinator), 'is not a prefix of w' and length thresholds for Concat, "
         "always-true, always-false, and a few non-monotone ones (model only); non-trivial = a search preceded by a range modify "
         "over a different, overlapping range")
@@ -44,8 +48,11 @@ shrink = base.shrink
 
 
 def generate(rng, tier):
-    count = 1200 if tier == "quick" else 30000
-    return [base.gen_history(rng, tier, (1, 3, 1, 5), 45) for _ in range(count)]
+    count, nflip, ntag = (1200, 180, 120) if tier == "quick" else (30000, 5000, 3000)
+    r1, r2, r3 = rng.fork("hist"), rng.fork("flip"), rng.fork("tagged")
+    return base.interleave([[base.gen_history(r1, tier, (1, 3, 1, 5), 45) for _ in range(count)],
+                            [base.gen_flip(r2, tier, 8) for _ in range(nflip)],
+                            [base.gen_tagged(r3, tier, 7) for _ in range(ntag)]])
 
 
 def nontrivial(c, obs):
@@ -72,7 +79,7 @@ MANIFEST = {
             "c02_lower_bound_rev_trace (every argument shown to the predicate is the in-order merge of such a range; no "
             "commutativity, no monotonicity needed), c02_model_check_spec_check.  Every run compares the real lower_bound / "
             "lower_bound_rev (results and the exact list of closure arguments) with the model and with the plain-array "
-            "specification on search-heavy histories for 10 item types.",
+            "specification on search-heavy histories for 11 item types (one of them lazy with the zero-sized modifier type ()).",
     "level_note": "Trusted: Coq kernel + vm_compute; the Rust executor and the Python printer/parsers; Z for i64; sampled "
                   "correspondence; searches with non-monotone predicates are compared with the model only; positions >= n are "
                   "outside the model (the crate panics by out-of-bounds indexing there).",
